@@ -38,7 +38,10 @@ def gen(seed, tier):
         n = rng.choice([3, 4])
         ln = rng.choice([4, 8, 12]) if tier == "quick" else rng.choice([8, 30, 80])
         yield {"prop": PROP, "op": "history", "d": d, "dflt": dflt, "t": H.gen_tree(rng, d, n, HI.POOL, dflt),
-               "n": n, "len": ln, "hseed": rng.randrange(1 << 30), "fdflt": rng.random() < 0.15, "kind": "owned", "mode": "general"}
+               "n": n, "len": ln, "hseed": rng.randrange(1 << 30), "fdflt": rng.random() < 0.15,
+               # configuration that must not matter to the bookkeeping: formats, a declared shape, own fiber defaults
+               "cfg": rng.choice([{}, {}, {}, {"fmt": [rng.choice("CU") for _ in range(d)], "shape": [n + 3] * d},
+                                  {"shape": [n + 3] * d}, {"fib0": True}]), "kind": "owned", "mode": "general"}
 
 
 def _nest(tree, depth, n, dflt):
